@@ -23,6 +23,8 @@ pub fn cfg() -> GenCfg {
         max_pieces: 3,
         max_comp_depth: 2,
         p_surplus: 40,
+        hyphen_keys: true,
+        hyphen_vars: true,
         ..GenCfg::default()
     }
 }
